@@ -751,7 +751,8 @@ impl Merge {
         }
         self.digest = self.digest.wrapping_add(h);
         self.steps += d.steps;
-        self.sim_ns += d.sim_ns;
+        // (millions of runs of up to days of simulated time each)
+        self.sim_ns = self.sim_ns.saturating_add(d.sim_ns);
         self.decisions += d.trace.len() as u64;
     }
 }
